@@ -53,6 +53,12 @@ def check(run, replay_case=None):
             scen.append({'cid': 'd%d' % i, 'schema': j, 'kind': 'datum-value', 'scenario': {'op': 'datum_write', 'sid': sid, 'value': vals[0]}})
             pl = plan_of(node, env, vals[1])
             scen.append({'cid': 'e%d' % i, 'schema': j, 'kind': 'datum-serde', 'scenario': {'op': 'datum_write_ser', 'sid': sid, 'plan': pl, 'legacy_fn': True}})
+            if pl[0] == 'struct' and len(pl[2]) > 1:
+                # a serde struct whose field order differs from the schema: fields are held back and emitted later
+                rev = ['struct', pl[1], list(reversed(pl[2]))]
+                scen.append({'cid': 'x%d' % i, 'schema': j, 'kind': 'datum-serde-out-of-order-fields', 'scenario': {'op': 'datum_write_ser', 'sid': sid, 'plan': rev, 'legacy_fn': i % 2 == 0}})
+                rot = ['struct', pl[1], pl[2][1:] + pl[2][:1]]
+                scen.append({'cid': 'y%d' % i, 'schema': j, 'kind': 'datum-serde-out-of-order-fields', 'scenario': {'op': 'datum_write_ser', 'sid': sid, 'plan': rot, 'target_block_size': 8}})
             if i % 3 == 0:
                 scen.append({'cid': 'g%d' % i, 'schema': j, 'kind': 'datum-serde-buffered-blocks', 'scenario': {'op': 'datum_write_ser', 'sid': sid, 'plan': pl, 'target_block_size': 4}})
             steps = [{'o': 'append_value_ref', 'v': vals[0]}, {'o': 'append_ser', 'plan': plan_of(node, env, vals[1])}, {'o': 'flush'},
